@@ -137,3 +137,16 @@ for _k, _v in THOROUGH.items():
     CONFIG[_k]["thorough"]["checks"] = _v
     CONFIG[_k]["thorough"]["timeout"] = 7200
     CONFIG[_k]["thorough"]["shards"] = 14
+
+# Native, coverage-guided fuzzing stage of the thorough tier (after the rapid shards; all cores; bounded by
+# executions, and by a wall-clock budget whose expiry is recorded as "inconclusive", never as a verdict).
+# "FuzzCnn" mutates the generator's decision stream, "FuzzCnnSource" the template source itself.
+FUZZ = {
+    'C01': [('FuzzC01', 400000)], 'C02': [('FuzzC02Source', 3000000), ('FuzzC02', 400000)], 'C03': [('FuzzC03', 1500000)],
+    'C04': [('FuzzC04', 2000000)], 'C05': [('FuzzC05', 400000)], 'C06': [('FuzzC06', 600000)], 'C07': [('FuzzC07', 400000)],
+    'C08': [('FuzzC08', 300000)], 'C09': [('FuzzC09', 300000)], 'C12': [('FuzzC12', 500000)], 'C13': [('FuzzC13', 400000)],
+    'C14': [('FuzzC14', 800000)], 'C16': [('FuzzC16', 800000)], 'C17': [('FuzzC17', 600000)], 'C18': [('FuzzC18', 400000)],
+    'C20': [('FuzzC20Source', 2000000), ('FuzzC20', 300000)],
+}
+for _k, _v in FUZZ.items():
+    CONFIG[_k]["thorough"]["fuzz"] = [{"target": t, "execs": n, "timeout": 1500, "workers": 14} for t, n in _v]
